@@ -24,7 +24,8 @@ def tostr(v):
 
 
 class El:
-    def __init__(self, tag, attrs=(), children=(), define=None, condition=None, repeat=None, content=None, replace=None, attributes=None, omit=None):
+    def __init__(self, tag, attrs=(), children=(), define=None, condition=None, repeat=None, content=None, replace=None, attributes=None, omit=None, metal=None):
+        self.metal = dict(metal or {})  # METAL: {'define-macro': n} | {'use-macro': 'macros/n'} | {'define-slot': n} | {'fill-slot': n}
         self.tag, self.attrs, self.children = tag, list(attrs), list(children)
         self.define = define  # list of (scope, name, expr)
         self.condition = condition  # expr
@@ -36,6 +37,8 @@ class El:
 
     def source(self):
         a = "".join(' %s="%s"' % (k, v) for k, v in self.attrs)
+        for k, v in self.metal.items():
+            a += ' metal:%s="%s"' % (k, v)
         if self.define:
             a += ' tal:define="%s"' % "; ".join(("%s %s %s" % (s, n, e)).strip() for s, n, e in self.define)
         if self.condition is not None:
@@ -251,10 +254,36 @@ def roman(num):
     return out
 
 
-def render(node, ctx):
+def walk(node):
+    if isinstance(node, str):
+        return
+    yield node
+    for c in node.children:
+        yield from walk(c)
+
+
+def macros_of(root):
+    """METAL: the macros a template defines, by name"""
+    return {el.metal["define-macro"]: el for el in walk(root) if "define-macro" in el.metal}
+
+
+def render(node, ctx, slots=None, macros=None):
+    """METAL (macro expansion happens first): an element with use-macro is replaced by the macro's
+    element, in which every define-slot element whose name the use-macro element fills is replaced by
+    the filling element; then TAL runs on the result in the current context."""
     if isinstance(node, str):
         return node
     el = node
+    if "use-macro" in el.metal:
+        name = el.metal["use-macro"].split("/")[-1]
+        fills = {c.metal["fill-slot"]: c for c in walk(el) if c is not el and "fill-slot" in c.metal}
+        return render(macros[name], ctx, fills, macros)
+    if "define-slot" in el.metal and slots and el.metal["define-slot"] in slots:
+        return render(slots[el.metal["define-slot"]], ctx, None, macros)
+    return render_tal(el, ctx, slots, macros)
+
+
+def render_tal(el, ctx, slots=None, macros=None):
     attrs_orig = dict(el.attrs)
     pushed = False
     out = ""
@@ -278,7 +307,7 @@ def render(node, ctx):
             var, expr = el.repeat
             seq = top(ctx, expr, attrs_orig)
             if seq is DEFAULT:
-                return out + render_once(el, ctx, attrs_orig)
+                return out + render_once(el, ctx, attrs_orig, slots, macros)
             try:
                 n = len(seq)
             except TypeError:
@@ -294,18 +323,18 @@ def render(node, ctx):
                 for i in range(n):
                     rv.pos = i
                     ctx.locals[-1][var] = seq[i]
-                    out += render_once(el, ctx, attrs_orig)
+                    out += render_once(el, ctx, attrs_orig, slots, macros)
             finally:
                 ctx.locals.pop()
                 ctx.repeat = saved
             return out
-        return render_once(el, ctx, attrs_orig)
+        return render_once(el, ctx, attrs_orig, slots, macros)
     finally:
         if pushed:
             ctx.locals.pop()
 
 
-def render_once(el, ctx, attrs_orig):
+def render_once(el, ctx, attrs_orig, slots=None, macros=None):
     """content/replace, attributes, omit-tag for one rendering of the element"""
     tags = True
     body = None  # None: original children
@@ -339,7 +368,7 @@ def render_once(el, ctx, attrs_orig):
         if el.omit.strip() == "" or truth_omit(top(ctx, el.omit, attrs_orig)):
             tags = False
     if body is None:
-        body = "".join(render(c, ctx) for c in el.children)
+        body = "".join(render(c, ctx, slots, macros) for c in el.children)
     if not tags:
         return body
     return "<" + el.tag + "".join(' %s="%s"' % (k, esc_attr(v)) for k, v in cur) + ">" + body + "</" + el.tag + ">"
